@@ -2,14 +2,22 @@ package scion
 
 import (
 	"context"
+	"errors"
 
 	"github.com/scionproto/scion/pkg/daemon"
 	"github.com/scionproto/scion/pkg/drkey"
 	"github.com/scionproto/scion/pkg/drkey/generic"
 )
 
+// errNoDaemon is returned when no connection to the SCION daemon exists, e.g.
+// because none is configured or it could not be reached at start-up.
+var errNoDaemon = errors.New("no connection to SCION daemon")
+
 func FetchHostASKey(ctx context.Context, dc daemon.Connector, meta drkey.HostASMeta) (
 	drkey.HostASKey, error) {
+	if dc == nil {
+		return drkey.HostASKey{}, errNoDaemon
+	}
 	return dc.DRKeyGetHostASKey(ctx, meta)
 }
 
@@ -38,5 +46,8 @@ func DeriveHostHostKey(hostASKey drkey.HostASKey, dstHost string) (
 
 func FetchHostHostKey(ctx context.Context, dc daemon.Connector, meta drkey.HostHostMeta) (
 	drkey.HostHostKey, error) {
+	if dc == nil {
+		return drkey.HostHostKey{}, errNoDaemon
+	}
 	return dc.DRKeyGetHostHostKey(ctx, meta)
 }
